@@ -46,10 +46,10 @@ Definition DAY : Z := 86400.
 
 (* ------------------------------------------------------------------ the grammar *)
 Inductive vkind := KDate | KDateTime.          (* VALUE=DATE or UTC DATE-TIME *)
-Inductive freq := Daily | Weekly.
+Inductive freq := Hourly | Daily | Weekly.
 Inductive rbound := RCount (n : Z) | RUntil (u : Z) | RForever.
 Record rrule := { r_freq : freq; r_interval : Z; r_bound : rbound }.
-Definition r_period (r : rrule) : Z := r_interval r * match r_freq r with Daily => 86400 | Weekly => 604800 end.
+Definition r_period (r : rrule) : Z := r_interval r * match r_freq r with Hourly => 3600 | Daily => 86400 | Weekly => 604800 end.
 
 (* recurrence: the rule and the EXDATE list (instants, seconds) *)
 Record recur := { rc_rule : rrule; rc_ex : list Z }.
